@@ -406,6 +406,18 @@ func mfDeviation(m *mfCase, o outcome, r *b1.Result) string {
 
 // C04 runs the one-field matrix (the struct-level walk is added by matchstruct.go).
 func C04(c *core.Ctx) {
+	if c.Replay != "" {
+		if !replayB1(c, mfJudge, nil, nil, mJudge(func(v *mVerdicts, m *wCase) ([]string, string) {
+			var p []string
+			if v.failed != "" {
+				p = append(p, v.failed)
+			}
+			return append(p, v.defaults...), ""
+		}), false) {
+			replayUnsupported(c)
+		}
+		return
+	}
 	keep := 6
 	if c.Thorough() {
 		keep = 1
@@ -476,6 +488,12 @@ func c01MatchField(c *core.Ctx, keep int) {
 
 // C16 (static side; the run-time side is added by genexec.go).
 func C16(c *core.Ctx) {
+	if c.Replay != "" {
+		if !replayB1(c, mfJudgeC16, nil, nil, nil, false) {
+			replayUnsupported(c)
+		}
+		return
+	}
 	c16Static(c)
 	// run-time side: fresh storage, nil stays nil, isolation after the source is overwritten
 	gxCommon(c, "GenExecTraceC16.cfg", "C16", func(r gxRun) bool {
@@ -493,6 +511,13 @@ func C16(c *core.Ctx) {
 
 // C01: every successfully generated file is gofmt-clean and compiles.
 func C01(c *core.Ctx) {
+	if c.Replay != "" {
+		c.Ev.Level = "translation_validation"
+		if !replayB1(c, compileJudge(func(r *b1.Result) string { return r.Case.ID }), compileJudge(func(r *b1.Result) string { return r.Case.ID }), compileJudge(func(r *b1.Result) string { return r.Case.ID }), compileJudge(func(r *b1.Result) string { return r.Case.ID }), true) {
+			replayUnsupported(c)
+		}
+		return
+	}
 	c.Ev.Level = "translation_validation"
 	keep := 4
 	if c.Thorough() {
